@@ -270,19 +270,28 @@ fn parent(run: &mut Run) -> Map<String, Value> {
     cov.insert("states_by_group".into(), Value::Object(sub("grpstates.")));
     cov.insert(
         "groups".into(),
-        json!({"A": "1 argument x every return kind", "B": "2 arguments (all kind pairs) -> u32", "C": "0 arguments x every return kind",
-               "D": "64 / 65 arguments", "E": "traits with 64 / 65 / 200 methods", "F": "3 arguments over {String,&str,&u32,Box<dyn Fn>} -> u32",
+        json!({"A": "1 argument x every return kind", "B": "2 arguments (all pairs of the pair alphabet) -> u32", "C": "0 arguments x every return kind",
+               "D": "64 / 65 arguments (mixed kinds; 64 compile-time sized arguments of 5 widths; the same between two serialized slices)", "E": "traits with 64 / 65 / 200 methods", "F": "3 arguments over {String,&str,&u32,Box<dyn Fn>} -> u32",
+               "H": "3 arguments over {u32,&dyn Fn,&[O],&[Option<u32>]} -> u32",
                "R": "quick signatures with the other receiver", "G": "#[async_trait] methods"}),
     );
+    cov.insert(
+        "argument_alphabet".into(),
+        Value::Array(vabi09fam::family::ARG_KINDS.iter().filter(|k| thorough || k.quick).map(|k| json!({"id": k.id, "type": k.ty, "compile_time_sized": k.fixed, "in_pairs": k.pair})).collect()),
+    );
+    cov.insert("return_alphabet".into(), Value::Array(vabi09fam::family::RET_KINDS.iter().filter(|k| thorough || k.quick).map(|k| json!({"id": k.id, "type": k.ty})).collect()));
     cov.insert("workers_abandoned_after_connect_panic".into(), json!(g("workers_abandoned_after_connect_panic")));
     cov.insert(
         "rule".into(),
-        json!("state = (generated trait method, argument values, return specification, keep-owned-arguments flag, panic payload kind, drop order); every state is executed directly and through AbiConnection::from_boxed_trait and the event traces compared. Non-trivial = the modelled argument block is in a FlexBuffer and exceeds 64 bytes (spill), or a reference argument is measured (get_arg_passable_by_ref) as passed by reference or as serialized, or an owned object (boxed trait object / boxed closure / future) crosses the boundary, or the implementation panics."),
+        json!("state = (generated trait method, argument values, return specification, keep-owned-arguments flag, panic payload kind, drop order); every state is executed directly and through AbiConnection::from_boxed_trait and the event traces compared. Non-trivial = the modelled argument block is in a FlexBuffer and exceeds 64 bytes (spill), or all arguments have a compile-time known size (fixed stack array), or a reference argument is measured (get_arg_passable_by_ref) as passed by reference or as serialized, or an owned object (boxed trait object / boxed closure / future) crosses the boundary, or the implementation panics."),
     );
     cov.insert(
         "bounds".into(),
         json!({"strings": if thorough { "every length 0..=140, 255..257, 1000, 4095..4097, 70000, multi-byte" } else { "every length 0..=80, multi-byte" },
                "vectors": if thorough { "0,1,2,3,12..17,63,64,65,255..257,1000" } else { "0,1,2,12,13,14,63,64,65" },
+               "element-wise serialized slices and vectors (&[O], &[Option<u32>], &[E], &Vec<O>, Vec<O>)": if thorough { "every length 0..=80, 255..257, 1000 (mixed 5/6- resp. 1/5-byte elements); 1..=12 uniform; all-None 1..=80" } else { "every length 0..=24 (mixed 5/6- resp. 1/5-byte elements); 1..=12 uniform; all-None 1..=80" },
+               "pairs of element-wise serialized arguments": if thorough { "all (i,j) in 0..=12 x 0..=12 elements" } else { "all (i,j) in 0..=6 x 0..=6 elements" },
+               "byte slices": if thorough { "every length 0..=80, 255..257, 1000, 70000" } else { "every length 0..=80" },
                "string pairs": if thorough { "all (i,j) in 0..=80 x 0..=80; full products of short value lists for all 2- and 3-argument methods; full products of the complete quick value lists for all 2-argument methods" } else { "i in 34..=53 x j in {0,1,2,7,8,9}" },
                "panic payloads": "static_str, formatted_string, any(i32), static_str raised inside a caller-side closure",
                "future schedules": if thorough { "0..=4 Pending rounds x wake during/deferred x drop after 0..=n polls" } else { "0..=2 Pending rounds x wake during/deferred x drop after 0..=n polls" },
